@@ -3,14 +3,18 @@
 //!
 //! usage: fir-harness <property> --seed N --tier quick|thorough --out DIR
 
+mod c01;
 mod c04;
 mod c06;
 mod c08;
 mod c14;
 mod c15;
 mod c16;
+mod rcase;
+mod rprops;
 mod views;
 mod c17;
+mod coeffs;
 mod util;
 
 use std::io::Write;
@@ -52,7 +56,28 @@ fn main() {
     silence_panics();
     let mut out = Out::new();
     match cmd.as_str() {
+        "C01" => {
+            c01::generate(&mut out, seed, thorough);
+            let mut rng = Rng::new(seed ^ 0xC0EF);
+            coeffs::generate(&mut out, &mut rng, if thorough { 20000 } else { 2500 }, if thorough { 40 } else { 12 }, &[0, 1, 2, 3, 4, 5, 6]);
+        }
         "C04" => c04::generate(&mut out, seed, thorough),
+        "C05" => rprops::gen_c05(&mut out, seed, thorough),
+        "C07" => rprops::gen_c07(&mut out, seed, thorough),
+        "C09" => rprops::gen_c09(&mut out, seed, thorough),
+        "C10" => {
+            rprops::gen_c10(&mut out, seed, thorough);
+            let mut rng = Rng::new(seed ^ 0xC10EF);
+            coeffs::generate(&mut out, &mut rng, if thorough { 60000 } else { 6000 }, if thorough { 128 } else { 24 }, &[0, 1, 2, 3, 4, 5, 6]);
+        }
+        "C11" => rprops::gen_c11(&mut out, seed, thorough),
+        "C12" => rprops::gen_c12(&mut out, seed, thorough),
+        "C13" => rprops::gen_c13(&mut out, seed, thorough),
+        "C18" => {
+            rprops::gen_c18(&mut out, seed, thorough);
+            let mut rng = Rng::new(seed ^ 0xC18EF);
+            coeffs::generate(&mut out, &mut rng, if thorough { 30000 } else { 4000 }, if thorough { 64 } else { 16 }, &[0, 1, 2, 5]);
+        }
         "C06" => c06::generate(&mut out, seed, thorough),
         "C08" => c08::generate(&mut out, seed, thorough),
         "C14" => c14::generate(&mut out, seed, thorough),
